@@ -6,7 +6,8 @@ Per target an abstract behaviour `orig | cb k | stub w`, updated by the LAST ins
 * a stub instruction (`Return`, `When`, `When..Return`, `Returns`) continues the stub configuration in force, and
   starts a fresh one when the callback or the original is in force (supersedes the callback);
 * `Cancel` → `orig`;  `Reset` → every target `orig` (a fresh configuration starts from scratch);
-* `Pkg p` is consumed by the next lookup of any kind.
+* `Pkg p` is consumed by the next lookup of any kind; after a lookup names resolve in the package that issued it;
+* an instruction through a kept handle counts for the target the handle was looked up for.
 Nothing here mentions caches, mocker objects, guards or what is installed.  The `When` algebra (what a stub
 configuration returns for an argument) is shared with the implementation model; it is the subject of C04/C05. -/
 namespace C12M
@@ -17,10 +18,14 @@ inductive Beh | orig | cb (k : Nat) | stub (w : When)
 structure Lww where
   beh : Tgt → Beh := fun _ => .orig
   pkg : Pkg := .p0
+  /-- which target a kept handle addresses -/
+  regs : Nat → Option Tgt := fun _ => none
 
 namespace Lww
 
 def init : Lww := {}
+/-- a builder created from package `p` resolves names in `p` until its first lookup -/
+def initP (p : Pkg) : Lww := { pkg := p }
 
 /-- the instruction's effect on the behaviour in force -/
 def instr (cur : Beh) : Instr → Beh
@@ -31,19 +36,35 @@ def instr (cur : Beh) : Instr → Beh
     | .stub w => .stub (w.step st)
     | _ => .stub (When.fresh st)
 
+/-- instructions that the target's kind of mocker does not offer are rejected and change nothing -/
+def rejected (t : Tgt) : Instr → Bool
+  | .apply _ => isPhantom t
+  | .stub _ => isPhantom t || isVar t
+  | _ => false
+
+/-- an instruction addressed to target `t` -/
+def onTgt (a : Lww) (t : Tgt) (ins : Instr) : Lww :=
+  if rejected t ins then a else { a with beh := upd a.beh t (instr (a.beh t) ins) }
+
 def step (a : Lww) : Op → Lww
   | .pkg p => { a with pkg := p }
   | .reset => { a with beh := fun _ => .orig }
-  | .var => { a with pkg := .p0 }
   | .stBad => { a with pkg := .p0 }
-  | .h hd ins =>
-    let t := tgtOf a.pkg hd
-    if isPhantom t then { a with pkg := .p0 }                    -- no such function: the instruction is rejected
-    else { beh := upd a.beh t (instr (a.beh t) ins), pkg := .p0 }
+  | .xfEmpty => a                                                -- rejected before it is a lookup: the override stays pending
+  | .qlook => { a with pkg := .pq }                              -- the caller's package of THAT lookup
+  | .h hd ins => onTgt { a with pkg := .p0 } (tgtOf a.pkg hd) ins
+  | .keep r hd => { a with pkg := .p0, regs := upd a.regs r (some (tgtOf a.pkg hd)) }
+  | .on r ins =>
+    match a.regs r with
+    | none => a
+    | some t => onTgt a t ins
 
 def call (a : Lww) (t : Tgt) (x : Nat) : Lww × Res :=
   match a.beh t with
-  | .orig => (a, .o)
+  | .orig =>
+    match t with                -- C07: a method without a mock of its own panics "not implements" while its variable is mocked
+    | .i2 j => if a.beh (.i2 (!j)) = .orig then (a, .o) else (a, .n)
+    | _ => (a, .o)
   | .cb k => (a, .k k)
   | .stub w => let (w', r) := w.invoke x; ({ a with beh := upd a.beh t (.stub w') }, r)
 
